@@ -465,7 +465,9 @@ def run_history(seed, prop, model, rep, length):
                     h.events.append(["ckdelete"])
                     h.has_ck = False
                     last_update_return = None
-                elif (h.has_ck and shown != before_ck) or (not h.has_ck and showrc is not None):
+                else:
+                    h.events.append(["update_unborn", "-p" in args])     # the model: a failed update changes nothing
+                if rc != 0 and ((h.has_ck and shown != before_ck) or (not h.has_ck and showrc is not None)):
                     if fail("C19", "a failed checkpoint update changed what checkpoint show returns", before=before_ck, after=shown):
                         return
             elif k < 84:
